@@ -144,5 +144,35 @@ Definition inplace_covers_b : bool :=
                     || String.eqb (fst f) "geometry" || String.eqb (fst f) "materials.state")
           reset_fields.
 
+(** ** thread -> slot discipline (hypothesis [isolated] of [perm_invariance])
+
+    Kernels address per-track data through CoreTrackView, which maps the
+    thread through [track_slots] (checked shapes above).  Every OTHER place
+    that constructs a TrackSlotId explicitly is listed by the translator with
+    its number of constructions and must be reviewed here. *)
+Definition slot_ctor_reviewed : list (string * string * string) :=
+  [ ("celeritas/global/ActionSequence.cc", "1",
+     "single-slot host shortcut: reads post_step_action of slot 0 when state.size() == 1 (thread 0 = slot 0)");
+    ("celeritas/global/CoreTrackView.hh", "1", "THE thread->slot map (track_slots[thread], identity when unsorted)");
+    ("celeritas/optical/action/TrackSlotExecutor.hh", "2", "optical loop (separate state, no re-indexing): thread = slot");
+    ("celeritas/optical/action/detail/InitTracksExecutor.hh", "1", "optical loop: thread = slot");
+    ("celeritas/optical/action/detail/TrackInitAlgorithms.cc", "1", "optical loop: vacancy list of slot ids");
+    ("celeritas/random/RngReseed.cc", "1", "reseed loops over ALL slots (shape-checked)");
+    ("celeritas/track/detail/InitTracksExecutor.hh", "4",
+     "indexes the per-step scratch arrays vacancies/parents/indices (sized like slots) by a THREAD-derived position; the slot written is the vacancy, the slot read is the parent (never a vacancy of the same launch: a dying parent's slot is re-used in place)");
+    ("celeritas/track/detail/LocateAliveExecutor.hh", "1",
+     "launched with thread = slot on purpose (identity, NOT through track_slots): vacancies/secondary_counts come out in slot order for every track order");
+    ("celeritas/track/detail/ProcessSecondariesExecutor.hh", "2",
+     "thread = slot identity as LocateAlive; parents[] scratch indexed by initializer position");
+    ("celeritas/user/detail/SimpleCaloExecutor.hh", "1", "iterates the gathered step buffer (slot-indexed) with thread = slot")
+  ].
+Definition slot_discipline_b : bool :=
+  forallb (fun fc => existsb (fun r => String.eqb (fst (fst r)) (fst fc) && String.eqb (snd (fst r)) (snd fc)) slot_ctor_reviewed)
+          slot_ctor_files
+  && forallb (fun r => existsb (fun fc => String.eqb (fst (fst r)) (fst fc)) slot_ctor_files) slot_ctor_reviewed.
+Definition slot_ctor_unreviewed : list (string * string) :=
+  filter (fun fc => negb (existsb (fun r => String.eqb (fst (fst r)) (fst fc) && String.eqb (snd (fst r)) (snd fc)) slot_ctor_reviewed))
+         slot_ctor_files.
+
 Definition failed_shapes : list string := map fst (filter (fun p => negb (snd p)) shape_checks).
 Definition shapes_all_ok_b : bool := forallb snd shape_checks.
